@@ -1,5 +1,7 @@
 import Casket.Model.FileServe
 import Casket.Spec.FileServe
+import Casket.Model.FileServeSeq
+import Casket.Spec.FileServeSeq
 import Casket.Spec.Cond
 import Casket.Generated.FileServe
 import Driver.Proto
@@ -22,6 +24,12 @@ Streams of C02.
      cond   hex of  inm=<*|s<ino>|w<ino>|g,…>;ims=<seconds|g>;range=<a>-<b>|<a>-|-<n>|g;x=<header outside the model>
      out    as c02.serve, or  C304 f | C200/CH200 enc f d | C206/CH206 enc f d a-b | C416 f|- | X f d
             (f: inode named by ETag/Content-Length/Content-Range/body, d: inode named by Last-Modified)
+  c02.mutate  (the first six fields of c02.serve)  step  step  …      a script on ONE running site
+     step   G:<method>:<hex target>:<hex acceptenc>:<j|h>   a request
+            W:<hex path>:<ino>      the fixture path now names a NEW regular file with that inode/token (write beside + rename over it, or create)
+            D:<hex path>            the regular file is removed
+            L:<hex path>:<hex src>  ln -f src path (one more name of src's inode)
+     out    the answers of the G steps, each as in c02.serve, joined by `|`
   c02.archerr  kind  type     kind none|symlink|dirlink|socket|procfs in the archived directory; out = alive clean | alive <defect> | CRASH
   c02.clean  hexpath        out = hex of path.Clean(path) TAB hex of path.Clean("/"+path)
   c02.match  hexpath hexbase    out = 1|0   (httpserver.Path.Matches)
@@ -246,6 +254,47 @@ def condJudge (f : List String) (out : String) : String :=
       | some obs => Casket.CondSpec.verdict cs.fs cs.site cs.target cs.ae obs
   | _ => "bad:unparsable:case"
 
+/-! ### c02.mutate : a script of requests and file-system changes on one running site -/
+open Casket.FileServeSeq in
+def parseStep (s : String) : Option (Step × Bytes) :=
+  match s.splitOn ":" with
+  | ["G", m, t, ae, _] => do pure (.get m.toUTF8.toList (← Driver.unhex t) (← Driver.unhex ae), m.toUTF8.toList)
+  | ["W", p, i] => do pure (.write (elemsOf (← Driver.unhex p)) (← i.toNat?), [])
+  | ["D", p] => do pure (.remove (elemsOf (← Driver.unhex p)), [])
+  | ["L", p, q] => do pure (.link (elemsOf (← Driver.unhex p)) (elemsOf (← Driver.unhex q)), [])
+  | _ => none
+
+structure SeqCase where
+  fs : FS
+  site : Site
+  steps : List Casket.FileServeSeq.Step
+
+def parseSeqCase : List String → Option SeqCase
+  | fsH :: rootH :: cfH :: preH :: brH :: ixH :: steps => do
+    let c ← parseCase [fsH, rootH, cfH, preH, brH, ixH, "GET", "", ""]
+    let st ← steps.mapM parseStep
+    pure { fs := c.fs, site := c.site, steps := st.map (·.1) }
+  | _ => none
+
+open Casket.FileServeSeq in
+def methodsOf (steps : List Step) : List Bytes :=
+  steps.filterMap fun s => match s with | .get m _ _ => some m | _ => none
+
+open Casket.FileServeSeq in
+def mutateModel (f : List String) : String :=
+  match parseSeqCase f with
+  | none => "bad-case"
+  | some c =>
+    "|".intercalate (((methodsOf c.steps).zip (run c.site c.fs c.steps)).map fun mr => render mr.1 mr.2)
+
+def mutateJudge (f : List String) (out : String) : String :=
+  match parseSeqCase f with
+  | none => "bad:unparsable:case"
+  | some c =>
+    match (if out = "" then [] else out.splitOn "|").mapM parseObs with
+    | none => "bad:unparsable:" ++ out
+    | some obs => Casket.FileServeSeqSpec.verdictSeq c.site 0 c.fs c.steps obs
+
 /-- c02.archerr (explored, not modelled): the archive error paths must leave the server alive
 and the client with one well-formed response. -/
 def archErrJudge (_ : List String) (out : String) : String :=
@@ -257,6 +306,7 @@ def streams : List Driver.Stream := [
   { name := "c02.archerr", model := fun _ => "alive clean", judge := archErrJudge },
   { name := "c02.cond", model := condModel, judge := condJudge },
   { name := "c02.serve", model := serveModel, judge := serveJudge },
+  { name := "c02.mutate", model := mutateModel, judge := mutateJudge },
   { name := "c02.clean", model := cleanModel, judge := fun _ _ => "ok" },
   { name := "c02.match", model := matchModel, judge := fun _ _ => "ok" },
   { name := "c02.escape", model := escapeModel, judge := fun _ _ => "ok" }
